@@ -29,6 +29,11 @@ What is enumerated
                  Such names are ordinary identifiers: Python writes them as plain `f(type=1)` keywords, so they must
                  bind declared parameters and must not be handled like `class` / `data-x`.  (Seam B of part D: the
                  same product for n <= 1 / 2 (quick / thorough) and calls of length <= 2.)
+  operands    E  seam A (both paths) on the signatures of <= 2 (thorough 3) parameters x every call of <= 2 tokens with at
+                 least one `...var` spread whose operand is a *variable*: a mapping holding one key (p0 / p1 / zz /
+                 data-y) of every type of MAP_TYPES (dict, OrderedDict, MappingProxyType, UserDict, ChainMap, a bare
+                 collections.abc.Mapping) or an iterable of two values of every type of ITER_TYPES (list, tuple, range,
+                 dict_keys, a bare re-iterable object); the twin is Python's f(**m) / f(*it) on the same object.
 
 Oracle (Python itself)
   The call is written as Python source `f(None, None, 10, *[21, 22], p0=30, **{"data-x": 40}, **{"p1": 57})`
@@ -201,13 +206,68 @@ def alphabet(names, spread_name="p1"):
     )
 
 
+MAP_TYPES = ("dict", "OrderedDict", "MappingProxyType", "UserDict", "ChainMap", "Mapping")
+ITER_TYPES = ("list", "tuple", "range", "dict_keys", "Iterable")
+
+
+def make_operand(typ, payload):
+    """A spread operand of the given type: payload is a dict (mapping types) or a list of two ints (iterables)."""
+    import collections
+    import types
+
+    if typ == "dict":
+        return dict(payload)
+    if typ == "OrderedDict":
+        return collections.OrderedDict(payload)
+    if typ == "MappingProxyType":
+        return types.MappingProxyType(dict(payload))
+    if typ == "UserDict":
+        return collections.UserDict(payload)
+    if typ == "ChainMap":
+        return collections.ChainMap({}, dict(payload))
+    if typ == "Mapping":
+        class M(collections.abc.Mapping):  # a Mapping that is no dict subclass and has nothing but the ABC's methods
+            def __init__(self, d):
+                self._d = d
+
+            def __getitem__(self, k):
+                return self._d[k]
+
+            def __iter__(self):
+                return iter(self._d)
+
+            def __len__(self):
+                return len(self._d)
+
+        return M(dict(payload))
+    if typ == "list":
+        return list(payload)
+    if typ == "tuple":
+        return tuple(payload)
+    if typ == "range":
+        return range(payload[0], payload[0] + len(payload))
+    if typ == "dict_keys":
+        return dict.fromkeys(payload).keys()
+    if typ == "Iterable":
+        class It:  # re-iterable, neither list nor tuple
+            def __init__(self, xs):
+                self._xs = xs
+
+            def __iter__(self):
+                return iter(self._xs)
+
+        return It(list(payload))
+    raise AssertionError(typ)
+
+
 class Call:
     """One call shape: tag text, compiled Python twin, flattened key sequence."""
 
-    __slots__ = ("toks", "text", "pysrc", "py", "flat", "pos_after_kw", "has_dup", "attrs")
+    __slots__ = ("toks", "text", "pysrc", "py", "flat", "pos_after_kw", "has_dup", "attrs", "vars")
 
     def __init__(self, toks, voff=0):
         self.toks = tuple(tuple(t) for t in toks)
+        self.vars = {}
         tag_parts, py_parts, flat = [], [], []
         for j, t in enumerate(self.toks):
             b = voff + 10 * (j + 1)
@@ -227,12 +287,22 @@ class Call:
                 tag_parts.append(f'...{{"{t[1]}": {b + 7}}}')
                 py_parts.append(f'**{{"{t[1]}": {b + 7}}}')
                 flat.append(t[1])
+            elif t[0] == "DV":  # `...var` where var is a mapping of type t[2] holding {t[1]: value}
+                self.vars[f"v{j}"] = make_operand(t[2], {t[1]: b + 7})
+                tag_parts.append(f"...v{j}")
+                py_parts.append(f'**V["v{j}"]')
+                flat.append(t[1])
+            elif t[0] == "LV":  # `...var` where var is an iterable of type t[1] holding two values
+                self.vars[f"v{j}"] = make_operand(t[1], [b + 1, b + 2])
+                tag_parts.append(f"...v{j}")
+                py_parts.append(f'*V["v{j}"]')
+                flat += [None, None]
             else:
                 raise AssertionError(t)
         self.text = " ".join(tag_parts)
         self.pysrc = "f(None, None" + "".join(", " + p for p in py_parts) + ")"
         try:
-            self.py = eval(compile("lambda f: " + self.pysrc, "<c11-call>", "eval"))
+            self.py = eval(compile("lambda f: " + self.pysrc, "<c11-call>", "eval"), {"V": self.vars})
         except SyntaxError:
             self.py = None
         self.flat = flat
@@ -271,6 +341,10 @@ def expected(call, fn):
 
 def observe_node(cls, call, ctx):
     del LOG[:]
+    if call.vars:
+        from django.template import Context
+
+        ctx = Context(dict(call.vars))
     try:
         cls(params=call.parse(), node_id="c11").render(ctx)
     except TypeError:
@@ -377,6 +451,10 @@ def _simpler_tokens(t):
         return [[("P",)], [("P",), ("P",)]]
     if t[0] == "D":
         return [[("K", t[1])]]
+    if t[0] == "DV":
+        return [[("D", t[1])]] + ([[("DV", t[1], "dict")]] if t[2] != "dict" else [])
+    if t[0] == "LV":
+        return [[("L",)]] + ([[("LV", "list")]] if t[1] != "list" else [])
     if t[0] == "K" and t[1] in ("class", "data-y"):
         return [[("K", "data-x")]]
     return []
@@ -887,6 +965,56 @@ def _part_d_worker(w, W, payload):
 
 
 # ----------------------------------------------------------------------------- run / replay
+# ----------------------------------------------------------------------------- part E (spread operand types)
+def alphabet_e(names):
+    keys = list(names[:2]) + ["zz", "data-y"]
+    return ([("P",)] + [("K", n) for n in names[:2]]
+            + [("DV", k, t) for k in keys for t in MAP_TYPES] + [("LV", t) for t in ITER_TYPES])
+
+
+def _calls_e(names, max_len):
+    alpha = alphabet_e(names)
+    for L in range(1, max_len + 1):
+        for toks in itertools.product(alpha, repeat=L):
+            if any(t[0] in ("DV", "LV") for t in toks):
+                yield toks
+
+
+def _part_e_worker(w, W, payload):
+    """`...var` with var a Mapping / an iterable of every type of MAP_TYPES / ITER_TYPES: Python's f(**m) / f(*it) is the twin"""
+    from django.template import Context
+
+    max_n, max_len, voff = payload["max_n"], payload["max_len"], payload["voff"]
+    ctx = Context()
+    agg = par.Agg()
+    state = _new_state()
+    i = -1
+    for sig in enum_signatures(max_n):
+        names = [p[2] for p in sig]
+        for toks in _calls_e(names, max_len):
+            i += 1
+            if i % W != w:
+                continue
+            call = Call(toks, voff)
+            exp, res, pp = check_pair(sig, call, ctx)
+            agg.states += 1
+            agg.transitions += 2
+            agg.validated += 2
+            if exp[0] == "ok" and not call.pos_after_kw:
+                agg.nontrivial += 1
+            agg.expected["agnostic_spread_after_keyword" if (exp[0] == "ok" and call.pos_after_kw) else "python_accepts" if exp[0] == "ok" else "python_rejects"] += 1
+            for t in toks:
+                if t[0] in ("DV", "LV"):
+                    agg.extra["type:" + t[-1]] += 1
+            for path, kind, log, problem in res:
+                agg.observe((path,) + outcome_key(kind, log))
+                if problem:
+                    report_failure(agg, state, "E", sig, call, path, problem[0], problem[1], voff, "c11", True, ctx)
+            if pp and not (res[0][3] or res[1][3]):
+                report_failure(agg, state, "E", sig, call, "both", pp[0], pp[1], voff, "c11", True, ctx)
+    return agg
+
+
 def _count_pairs(maxlen_by_n):
     max_n = max(maxlen_by_n)
     per_n = {}
@@ -1006,11 +1134,27 @@ def run(ctx):
         )
         fnd.merge_reports(aggd.failures)
         dropped += aggd.failures_dropped
+    # ---- part E: spread operands of every Mapping / iterable type
+    e_n, e_len = (3, 2) if thorough else (2, 2)
+    for sg in enum_signatures(e_n):
+        node_classes(sg)
+    agge = par.run_sharded(_part_e_worker, {"max_n": e_n, "max_len": e_len, "voff": voff})
+    if not agge.nontrivial:
+        raise par.HarnessError("part E never produced a call that Python accepts")
+    ev.add_part(
+        "E_spread_operand_types", states=agge.states, transitions=agge.transitions, validated=agge.validated, nontrivial=agge.nontrivial,
+        observed_distinct=len(agge.observed), expected=agge.expected,
+        bound={"max_params": e_n, "max_call_len": e_len, "mapping_types": list(MAP_TYPES), "iterable_types": list(ITER_TYPES),
+               "alphabet": "P p_i= ...<mapping var of every type, key p0/p1/zz/data-y> ...<iterable var of every type>; >= 1 typed spread per call"},
+        extra={"operands_by_type": {k[5:]: v for k, v in sorted(agge.extra.items()) if k.startswith("type:")}},
+    )
+    fnd.merge_reports(agge.failures)
+    dropped += agge.failures_dropped
     if dropped:
         # every pair was executed and judged; beyond MAX_SHRINKS_PER_WORKER failing pairs per worker are only counted
         ev.extra["failing_pairs_counted_but_not_shrunk"] = dropped
     ev.assumptions = [
-        "argument values are integer literals; how values are written and resolved is C02",
+        "argument values are integer literals (part E: `...var` spreads of typed operands); how values are written and resolved is C02",
         "a list spread placed after a plain keyword argument is accepted under either reading (error, or Python's f(a=1, *[..]) binding)",
         "order of entries inside **kwargs and exception messages are not compared",
         "the fallback path is reached with a callable object that has no __code__ (the only thing validate_params() dispatches on)",
